@@ -243,10 +243,23 @@ MergeGroup(p, l) ==
 TagConflict(p, l) ==
   \E i \in DOMAIN p.tags, j \in DOMAIN l.tags : p.tagn[i] = l.tagn[j] /\ p.tags[i] # l.tags[j]
 
+\* the name of the new line is mentioned (and not yet defined) as something the line cannot be:
+\* a segment is expected but the line is not one, or a group item but the line is of a type that
+\* cannot be listed.  No document containing both can be valid; what gfapy does then is not specified.
+WrongKindForPlaceholder(st, l) ==
+  Named(l) /\ ((l.name \in VirtSegIds(st) /\ l.rt # "S")
+               \/ (l.name \in UnknownIds(st) /\ l.rt \notin {"S", "E", "G", "O", "U"}))
+
 AddDecided(st, l) ==
   LET lv == LineVersion(l) IN
   IF lv # "any" /\ lv # st.ver THEN {Fail(st, "VersionError")}
   ELSE IF l.rt = "#" THEN {Ok([st EXCEPT !.lines = Append(@, l)])}
+  ELSE IF WrongKindForPlaceholder(st, l) THEN {[st |-> st, res |-> "unmodelled"]}
+  ELSE IF SegMentions(l) \cap (NamesOf(st) \ SegIds(st)) # {}
+    \* a segment is mentioned under an identifier that a line of another type carries
+    THEN {Fail(st, "NotUniqueError"), Fail(st, "Error")}
+  ELSE IF l.rt = "O" /\ \E i \in DOMAIN st.lines : st.lines[i].rt = "U" /\ st.lines[i].name \in RefIds(l)
+    THEN {[st |-> st, res |-> "unmodelled"]}   \* an ordered group cannot list a set: not specified
   ELSE IF IsLink(l) THEN
     LET clash == {i \in DOMAIN st.lines : LinkClash(st.lines[i], l)} IN
     IF Named(l) /\ l.name \in NamesOf(st) THEN {Fail(st, "NotUniqueError")}
@@ -332,7 +345,7 @@ Rename(st, old, new) ==
       {Fail(st, "NotUniqueError")}
         \cup (IF IsGroup(t) /\ \E j \in IdxNamed(st, new) : st.lines[j].rt = t.rt
               THEN {[st |-> st, res |-> "unmodelled"]} ELSE {})   \* documented group merge: trace ends
-    ELSE IF new \in PlaceholderIds(st) /\ t.rt \notin {"L", "C"}
+    ELSE IF new \in PlaceholderIds(st)
       THEN {[st |-> st, res |-> "unmodelled"]}   \* taking over a placeholder's name: not specified
     ELSE
       {Ok([st EXCEPT !.lines = [j \in DOMAIN st.lines |->
@@ -378,6 +391,7 @@ Step(st, op) ==
     [] op.k = "settag" -> SetTag(st, op.id, op.l)
     [] op.k = "deltag" -> DelTag(st, op.id, op.l)
     [] op.k = "load"  -> Load(st, op.ls)
+    [] op.k = "unused" -> {Ok(st)}           \* unused_name(): the document is unchanged, the answer is fresh
     [] op.k = "query" -> {Ok(st)}            \* read-only: the document is unchanged (C10)
     [] op.k = "flush" -> ProcessQueue(st)
     [] op.k = "rm"    -> Rm(st, op.id)
